@@ -792,6 +792,13 @@ class Tensor(object):
                     cores[-1] = cores[-1][:, 0]
                 else:
                     cores[-1] = cores[-1][0]
+        # A CP factor at either end was turned into a TT core whose outer bond is open: close it by summation (as
+        # decompression would), since orthogonalization, rounding and the automata routines expect boundary rank 1
+        k = 1 if self.batch else 0
+        if cores[0].dim() == m + 1 and cores[0].shape[k] > 1:
+            cores[0] = torch.sum(cores[0], dim=k, keepdim=True)
+        if cores[-1].dim() == m + 1 and cores[-1].shape[-1] > 1:
+            cores[-1] = torch.sum(cores[-1], dim=-1, keepdim=True)
         return tn.Tensor(cores, Us=Us, batch=self.batch)
 
     def __truediv__(self, other: Union[Any, torch.Tensor]):
